@@ -692,6 +692,13 @@ fn injected(what: &str) -> object_store::Error {
     }
 }
 
+fn classify<T>(r: &object_store::Result<T>) -> Result<(), String> {
+    match r {
+        Ok(_) => Ok(()),
+        Err(e) => Err(err_class(e)),
+    }
+}
+
 fn err_class(e: &object_store::Error) -> String {
     match e {
         object_store::Error::NotFound { .. } => "NotFound".into(),
@@ -781,14 +788,14 @@ impl ActorStore {
         (idx, fault, crash)
     }
 
-    async fn finish<T>(
+    async fn finish(
         &self,
         kind: Kind,
         path: &Path,
         to: Option<&Path>,
         mut_index: Option<u64>,
         applied: bool,
-        res: &object_store::Result<T>,
+        result: Result<(), String>,
     ) {
         let dest = to.unwrap_or(path);
         let hash = if kind.is_mutating() && applied && kind != Kind::Delete {
@@ -812,10 +819,7 @@ impl ActorStore {
             kind,
             path: path.to_string(),
             to: to.map(|p| p.to_string()),
-            result: match res {
-                Ok(_) => Ok(()),
-                Err(e) => Err(err_class(e)),
-            },
+            result,
             applied,
             hash,
             mut_index,
@@ -843,7 +847,7 @@ impl ActorStore {
         match fault {
             Some(Fault::FailBefore) => {
                 let res: object_store::Result<T> = Err(injected(tag));
-                self.finish(kind, path, to, idx, false, &res).await;
+                self.finish(kind, path, to, idx, false, classify(&res)).await;
                 res
             }
             Some(Fault::LostReply) => {
@@ -853,13 +857,13 @@ impl ActorStore {
                     Ok(_) => Err(injected(tag)),
                     Err(e) => Err(e),
                 };
-                self.finish(kind, path, to, idx, applied, &res).await;
+                self.finish(kind, path, to, idx, applied, classify(&res)).await;
                 res
             }
             None => {
                 let res = f().await;
                 let applied = res.is_ok();
-                self.finish(kind, path, to, idx, applied, &res).await;
+                self.finish(kind, path, to, idx, applied, classify(&res)).await;
                 res
             }
         }
@@ -880,7 +884,7 @@ impl ActorStore {
         } else {
             f().await
         };
-        self.finish(kind, path, None, None, false, &res).await;
+        self.finish(kind, path, None, None, false, classify(&res)).await;
         res
     }
 }
